@@ -196,8 +196,8 @@ fn run(ctx: &Arc<Ctx>) {
         }
     }
     ctx.run_enumerated("unit-vectors", "rsdata", cases, Some("every unit vector position of every symbol size (the code is linear, so unit vectors span all data vectors)"), check);
-    ctx.run_generated("generated", "rsdata", ctx.cases(20_000, 600_000), g_rs_data, check);
-    ctx.run_generated("register-states", "rsdata", ctx.cases(40_000, 800_000), g_register_state, check);
+    ctx.run_generated("generated", "rsdata", ctx.cases(60_000, 1_000_000), g_rs_data, check);
+    ctx.run_generated("register-states", "rsdata", ctx.cases(100_000, 1_500_000), g_register_state, check);
 }
 
 fn replay(_ctx: &Ctx, kind: &str, case: &Value) -> Option<Verdict> {
